@@ -80,6 +80,21 @@ def fixed_list():
             "coeffs": [[cg.dyadic(c, 16)] for c in c1], "type": "cartesian"}
     base.append(("F7 (contracted core s, contracted core s | f 0.725333, f 0.725333)",
                  [core, core, diffuse(3, 0.725333), diffuse(3, 0.725333)]))
+    # the same physics with the primitives of the contracted core shell listed most-diffuse-first, and a two-primitive
+    # core shell whose tight primitive comes last (the order of primitives must not matter)
+    rev = dict(core, exps=list(reversed(core["exps"])), coeffs=list(reversed(core["coeffs"])))
+    base.append(("F8 (F7 with the core primitives listed in increasing order)", [rev, rev, diffuse(3, 0.725333), diffuse(3, 0.725333)]))
+    two = {"l": 0, "center": [[0, 0]] * 3, "exps": [cg.dyadic(0.12, 20), cg.dyadic(1.0e5, 20)], "coeffs": [[[3, -2]], [[1, 0]]], "type": "cartesian"}
+    base.append(("F9 (s {0.12, 1e5}, s {0.12, 1e5} | s 0.3, f 0.2)", [two, two, {"l": 0, "center": diffuse(3, 0.2)["center"], "exps": [cg.dyadic(0.3, 20)],
+                                                                                "coeffs": [[[1, 0]]], "type": "cartesian"}, diffuse(3, 0.2)]))
+    # a realistic five-primitive contracted core s shell (1e5 ... 0.15) written most-diffuse-first
+    inc = {"l": 0, "center": [[0, 0]] * 3, "exps": [cg.dyadic(e, 20) for e in (0.15, 2.1, 40.0, 1.5e3, 1.0e5)],
+           "coeffs": [[cg.dyadic(c, 12)] for c in (0.35, 0.45, 0.25, 0.05, 0.004)], "type": "cartesian"}
+    fo = {"l": 3, "center": [cg.dyadic(0.3, 20), cg.dyadic(-0.7, 20), cg.dyadic(1.1, 20)], "exps": [cg.dyadic(0.25, 20)],
+          "coeffs": [[[1, 0]]], "type": "cartesian"}
+    so = dict(fo, l=0)
+    base.append(("F10 (contracted core s listed in increasing order, same | f 0.25, f 0.25)", [inc, inc, fo, fo]))
+    base.append(("F11 (contracted core s listed in increasing order, same | s 0.25, f 0.25)", [inc, inc, so, fo]))
     out = []
     for name, shs in base:
         out.append({"kind": "fixed", "name": name, "shells": shs})
